@@ -57,3 +57,63 @@ def zero_valid(ctx, rule, modules):
                 f'`self.{bad[0][1].attr}` (an `int | None` field) is tested by truthiness in {bad[0][0]}: the legal value 0 is treated like an absent field' if bad else '', p.loc(bad[0][1]) if bad else '')
     ctl = ast.parse('def f(self):\n    if self.seq and self.n is not None:\n        pass\n').body[0]
     R.check([a.attr for a in truthiness_tests(ctl, {'seq', 'n'})] == ['seq'] and n_cls >= 1, rule, f'{", ".join(modules)} | optional integer fields', f'{n_cls} classes, {n_fields} optional integer fields (positive control matched)', f'no class with optional integer fields found in {modules} or control not matched')
+
+
+def truthiness_uses(tree, names):
+    """attribute accesses `<anything>.<name>` (name in names) used for their truth value: test atoms and operands of and/or."""
+    out = []
+
+    def atoms(t):
+        st = [t]
+        while st:
+            a = st.pop()
+            if isinstance(a, ast.BoolOp):
+                st += a.values
+            elif isinstance(a, ast.UnaryOp) and isinstance(a.op, ast.Not):
+                st.append(a.operand)
+            elif isinstance(a, ast.Attribute) and a.attr in names:
+                out.append(a)
+    for node in ast.walk(tree):
+        if isinstance(node, (ast.If, ast.IfExp, ast.While, ast.Assert)):
+            atoms(node.test)
+        elif isinstance(node, ast.comprehension):
+            for t in node.ifs:
+                atoms(t)
+        elif isinstance(node, ast.BoolOp):
+            # `x.f or default`, `x.f and ...` outside a test position: all operands but the last are truth-tested
+            if isinstance(node.op, ast.Or) and isinstance(node.values[-1], ast.Constant) and node.values[-1].value == 0 and not isinstance(node.values[-1].value, bool):
+                continue  # `x.f or 0`: None and 0 both give 0, nothing is lost
+            for v in node.values[:-1]:
+                atoms(v)
+    seen, uniq = set(), []
+    for a in out:
+        if id(a) not in seen:
+            seen.add(id(a))
+            uniq.append(a)
+    return uniq
+
+
+def zero_valid_attrs(ctx, rule, class_modules, use_modules, int_like=('int',)):
+    """Fields declared `<int-like> | None` in classes of class_modules; every truth-valued use of an attribute of that
+    name anywhere in use_modules is a violation (0 -- e.g. the public address type -- would be read as absent)."""
+    R, p = ctx.r, ctx.p
+    pat = re.compile(r'^(?:[\w.]*\.)?(' + '|'.join(re.escape(x) for x in int_like) + r')\|None$|^None\|(?:[\w.]*\.)?(' + '|'.join(re.escape(x) for x in int_like) + r')$')
+    names = {}
+    for q, ci in sorted(p.classes.items()):
+        if any(q.startswith(m + '.') for m in class_modules):
+            for k, a in ci.annots.items():
+                if pat.match(text(a).replace(' ', '')):
+                    names.setdefault(k, q)
+    bad = []
+    for mn in use_modules:
+        m = p.modules.get(mn)
+        if m is None:
+            R.bad(rule, mn, 'anchor missing')
+            continue
+        for a in truthiness_uses(m.tree, set(names)):
+            bad.append((mn, a, m))
+    for mn, a, m in bad:
+        R.bad(rule, f'{p.qual_of(a)} | {text(a)}', f'`{text(a)}` ({names[a.attr]}.{a.attr}, an optional integer-valued field) is used for its truth value: the legal value 0 is treated like a missing one', f'{m.rel}:{a.lineno}')
+    ctl = ast.parse('x = keys.address_type or 1\nif k.ediv:\n    pass\ny = keys.address_type if keys.address_type is not None else 1\n')
+    R.check(sorted(a.attr for a in truthiness_uses(ctl, {'address_type', 'ediv'})) == ['address_type', 'ediv'] and len(names) >= 1, rule, f'{", ".join(use_modules)} | optional integer-valued fields',
+            f'{len(names)} field name(s) ({", ".join(sorted(names))}): presence is tested with `is None` only (positive control matched)', f'no optional integer-valued field found in {class_modules} or control not matched')
